@@ -837,10 +837,110 @@ class ZoneFn:
                 oty = self.body.local_ty(o['pl']['l']) if o['k'] in ('copy', 'move') and not o['pl'].get('p') else ''
                 if oty.lstrip('&').strip() in ('usize', 'u64', 'u32', 'u16', 'u8'):
                     return self.term_op(o)
+        # an integer a local callee handed back inside Ok / Some, alone or as a member of a tuple
+        rc = self._ret_component(pl)
+        if rc is not None:
+            r = self._ret_comp_term(*rc)
+            if r is not None:
+                return r
         # payload of Option / ControlFlow
         if all(p['k'] in ('downcast', 'field') for p in ps) and any(p['k'] == 'downcast' for p in ps):
             return self._payload_term(pl)
         return None
+
+    def _lin_ub(self, call, tgt, cargs, lin, c0):
+        """constant upper bound of a sum of callee parameter terms (positive coefficients), from the bounds of the arguments here"""
+        tot = c0
+        for sy, k in lin.items():
+            if k < 0:
+                continue      # subtracting something that is at least 0
+            tt = self.za.subst(self, call, (sy, 0), tgt=tgt, args=cargs)
+            if tt is None:
+                return None
+            u = tt[1] if tt[0] is None else self.sym_ub(tt[0]) + tt[1]
+            if u >= UMAX:
+                return None
+            tot += k * u
+        return tot if 0 <= tot < UMAX else None
+
+    def _ret_component(self, pl, depth=0):
+        """(payload local, call block, call, member path) when the place is (a member of) the success payload of a call to a local function:
+        `((_r as Continue).0).1`, or `_t.1` with `_t = move ((_r as Continue).0)`"""
+        if depth > 4:
+            return None
+        ps = [p for p in pl.get('p', []) if p['k'] != 'deref']
+        if any(p['k'] not in ('downcast', 'field') for p in ps):
+            return None
+        if any(p['k'] == 'downcast' for p in ps):
+            if ps[0]['k'] != 'downcast' or ps[0]['n'] not in ('Some', 'Continue', 'Ok') or len(ps) < 2 or ps[1]['k'] != 'field' or ps[1]['n'] != '0':
+                return None
+            rest = ps[2:]
+            if any(p['k'] != 'field' or not str(p['n']).isdigit() for p in rest):
+                return None
+            o = self._origin_call(pl['l'])
+            if o is None:
+                return None
+            from flow import local_target
+            tgt = local_target(self.za.eng, o[1])
+            if tgt is None or tgt == self.body.path:
+                return None
+            return (pl['l'], o[0], o[1], tuple(str(p['n']) for p in rest))
+        if (not ps and depth == 0) or any(not str(p['n']).isdigit() for p in ps):
+            return None
+        d = self.single_def(pl['l'])
+        if d and d[0] == 'assign' and not d[2]['dst'].get('p') and d[2]['rv']['k'] == 'use' and d[2]['rv']['op']['k'] in ('copy', 'move'):
+            inner = self._ret_component(d[2]['rv']['op']['pl'], depth + 1)
+            if inner is not None:
+                return (inner[0], inner[1], inner[2], inner[3] + tuple(str(p['n']) for p in ps))
+        return None
+
+    def _ret_comp_term(self, pl_l, bi, call, path):
+        from flow import local_target
+        key = ('retcomp', pl_l, path)
+        if key in self._term:
+            return self._term[key]
+        self._term[key] = None
+        tgt = local_target(self.za.eng, call)
+        summ = self.za.summary(tgt)
+        rr = (summ or {}).get('retrel') or {}
+        if path not in rr:
+            return None
+        ent = rr[path]
+        czf = self.za.zf(tgt)
+        # the member is a parameter term of the callee: the same term here
+        if ent['sym'] is None:
+            res = self.za.subst(self, call, ent['term'], tgt)
+            if res is not None and self.unstable(res):
+                res = None
+            self._term[key] = res
+            return res
+
+        def mine(pth):
+            return 'r%d_%s' % (pl_l, '_'.join(pth))
+        res = (mine(path), ent['term'][1])
+        self._term[key] = res
+        self.za.retexpr[(self.body.path, res[0])] = (tgt, call, (ent['term'][0], 0))
+        lf = linear_form(czf, (ent['term'][0], 0))
+        if lf is not None and lf[0] and all(self.za._param_term_ok(czf, (sy, 0)) for sy in lf[0]):
+            ub = self._lin_ub(call, tgt, None, lf[0], lf[1])
+            if ub is not None:
+                self.sym_bound[res[0]] = ub
+        if ('retcomp-facts', pl_l) not in self._term:
+            self._term[('retcomp-facts', pl_l)] = True
+            byname = {e['sym']: p_ for p_, e in rr.items() if e['sym'] is not None}
+
+            def tr(t):
+                if t[0] is not None and t[0].startswith('ret:'):
+                    p_ = byname.get(t[0])
+                    return (mine(p_), t[1]) if p_ is not None else None
+                r2 = self.za.subst(self, call, t, tgt)
+                return None if r2 is None or self.unstable(r2) else r2
+            for (t1, t2) in ent['facts']:
+                a, b = tr(t1), tr(t2)
+                if a is not None and b is not None:
+                    self.global_facts.append((('payload', pl_l), a, b))
+            self._fact_cache = {k: v for k, v in self._fact_cache.items() if isinstance(k, tuple) and k and k[0] == 'pb'}
+        return res
 
     def _opaque(self, l):
         return ('v%d' % l, 0)
@@ -1619,6 +1719,12 @@ class ZoneFn:
             a, b = self.za.subst(self, call, t1, tgt=tgt, args=cargs), self.za.subst(self, call, t2, tgt=tgt, args=cargs)
             if a is not None and b is not None:
                 out.append((a, b))
+        # an integer argument the callee found to be at most a sum of its other arguments' sizes: a constant bound here
+        for (t1, (lin, c0)) in summ.get('post_lin', []):
+            a = self.za.subst(self, call, t1, tgt=tgt, args=cargs)
+            ub = self._lin_ub(call, tgt, cargs, lin, c0)
+            if a is not None and a[0] is not None and ub is not None:
+                out.append((a, (None, ub)))
         # `ensure(cond, || err)?`: the callee succeeds only if the boolean it was given is true - the comparison that produced it holds here
         for k in summ.get('post_true', []):
             aargs = cargs if cargs is not None else call['args']
@@ -1714,10 +1820,10 @@ class ZoneFn:
         tf, ff = self._cmp_facts(op, a, b)
         return tf if neg else ff
 
-    def _trace_bool(self, pl, depth):
+    def _trace_bool(self, pl, depth, _def=None):
         if depth > 8 or pl.get('p'):
             return None
-        d = self.single_def(pl['l'])
+        d = _def if _def is not None else self.single_def(pl['l'])
         if d is None:
             return self._trace_short_circuit(pl['l'], depth)
         kind, bi, x = d
@@ -1770,6 +1876,28 @@ class ZoneFn:
                         if cal.endswith('is_none'):
                             return ('FACTS', none_facts, [], False)
                         return ('FACTS', [], none_facts, False)
+            if cal in ('std::option::Option::<T>::map_or', 'std::option::Option::<T>::is_some_and') and len(x['args']) in (2, 3) \
+                    and x['args'][0]['k'] in ('copy', 'move') and not x['args'][0]['pl'].get('p') and x['args'][-1]['k'] in ('copy', 'move') \
+                    and not x['args'][-1]['pl'].get('p') and (len(x['args']) == 2 or (x['args'][1]['k'] == 'const' and x['args'][1].get('int') == '0')):
+                # `list.last().map_or(false, |&i| i >= L)` on a list that is known to be in ascending order here: the last element is the largest
+                # one, so an upper bound that holds for it (the predicate came out false) holds for every element
+                o = self.single_def(x['args'][0]['pl']['l'])
+                if o and o[0] == 'call' and (o[2].get('callee') or '') == 'core::slice::<impl [T]>::last' and o[2]['args'] and o[2]['args'][0]['k'] in ('copy', 'move'):
+                    lpl = o[2]['args'][0]['pl']
+                    es = self.elem_sym_of_desc(self.desc_place(lpl))
+                    ci = self.fd._closure_info(x['args'][-1]['pl']['l'])
+                    pr = self.closure_predicate(ci[0], ci[1], es) if (es is not None and ci is not None) else None
+                    if pr is not None:
+                        from rf_codec import _ascending_validated
+                        root = self.fd.resolve_place(lpl)[0]
+                        if _ascending_validated(self.za.prog, self.za.eng, self.body, self.fd, root, bi):
+                            op, a, b, neg = pr
+                            tf, ff = self._cmp_facts(op, a, b)
+                            if neg:
+                                tf, ff = ff, tf
+                            ups = [(t1, t2) for (t1, t2) in ff if t1 is not None and t2 is not None and t1[0] == es and t2[0] != es]
+                            if ups:
+                                return ('FACTS', [], ups, False)
             if cal in ('std::iter::Iterator::any', 'std::iter::Iterator::all') and len(x['args']) == 2 and x['args'][1]['k'] in ('copy', 'move') \
                     and not x['args'][1]['pl'].get('p'):
                 # quantified predicate over the elements of a container: all(p) true => p for every element; any(p) false => !p for every element
@@ -1875,14 +2003,16 @@ class ZoneFn:
         if body.local_ty(l) != 'bool' or self.fd.is_param(l):
             return None
         ds = [d for d in self.fd.defs.get(l, []) if not d[2].get('dst', {}).get('p')]
-        if len(ds) != 2 or not all(d[0] == 'assign' for d in ds):
+        if len(ds) != 2 or not all(d[0] in ('assign', 'call') for d in ds):
             return None
-        const = [d for d in ds if d[2]['rv']['k'] == 'use' and d[2]['rv']['op']['k'] == 'const' and d[2]['rv']['op'].get('int') in ('0', '1')]
+        const = [d for d in ds if d[0] == 'assign' and d[2]['rv']['k'] == 'use' and d[2]['rv']['op']['k'] == 'const' and d[2]['rv']['op'].get('int') in ('0', '1')]
         other = [d for d in ds if d not in const]
         if len(const) != 1 or len(other) != 1:
             return None
         cval = const[0][2]['rv']['op']['int'] == '1'
         cb, ob = const[0][1], other[0][1]
+        if other[0][0] == 'call':
+            ob = other[0][2].get('t', ob)       # the value exists from the block the call returns to
         # the switch that separates the two definitions
         sw = None
         for sb, blk in enumerate(body.blocks):
@@ -1907,8 +2037,13 @@ class ZoneFn:
             return None
         sb, t, edge_c, edge_o = sw
         first = self._facts_pair(self._trace_bool(t['discr']['pl'], depth + 1))
-        rv = other[0][2]['rv']
         second = None
+        if other[0][0] == 'call':
+            # the second operand is computed by a call straight into the variable (`a || list.iter().any(..)`)
+            second = self._facts_pair(self._trace_bool({'l': l}, depth + 1, _def=other[0]))
+            rv = {'k': None}
+        else:
+            rv = other[0][2]['rv']
         if rv['k'] == 'use' and rv['op']['k'] in ('copy', 'move'):
             second = self._facts_pair(self._trace_bool(rv['op']['pl'], depth + 1))
         elif rv['k'] == 'binop' and rv['op'] in ('Eq', 'Ne', 'Lt', 'Le', 'Gt', 'Ge'):
@@ -2064,6 +2199,51 @@ class ZoneFn:
             return t[1]
         facts = list(self.facts_at(b)) + list(extra)
         return dbm_upper(facts, t, self.sym_ub)
+
+
+def linear_form(zf, t, depth=0):
+    """a term as a linear form ({symbol: coefficient}, constant), expanding sums of two symbolic values the zone keeps as opaque symbols"""
+    if t is None or depth > 8:
+        return None
+    sy, c = t
+    if sy is None:
+        return ({}, c)
+    if sy.startswith('v') and sy[1:].isdigit() and (zf.body.path, int(sy[1:])) in zf.za.sums:
+        a, b = zf.za.sums[(zf.body.path, int(sy[1:]))]
+        la, lb = linear_form(zf, a, depth + 1), linear_form(zf, b, depth + 1)
+        if la is None or lb is None:
+            return None
+        out = dict(la[0])
+        for k, v in lb[0].items():
+            out[k] = out.get(k, 0) + v
+        return (out, la[1] + lb[1] + c)
+    if (zf.body.path, sy) in zf.za.retexpr:
+        # an integer handed back by a local function: its linear form there, in the terms of this call's arguments
+        tgt, call, ct = zf.za.retexpr[(zf.body.path, sy)]
+        lc = linear_form(zf.za.zf(tgt), ct, depth + 1)
+        if lc is None:
+            return None
+        out, oc = {}, lc[1] + c
+        for s2, k2 in lc[0].items():
+            tt = zf.za.subst(zf, call, (s2, 0), tgt)
+            lt = linear_form(zf, tt, depth + 1) if tt is not None else None
+            if lt is None:
+                return None
+            for s3, k3 in lt[0].items():
+                out[s3] = out.get(s3, 0) + k2 * k3
+            oc += k2 * lt[1]
+        return ({k: v for k, v in out.items() if v != 0}, oc)
+    if (zf.body.path, sy) in zf.za.diffs:
+        a, b = zf.za.diffs[(zf.body.path, sy)]
+        la, lb = linear_form(zf, a, depth + 1), linear_form(zf, b, depth + 1)
+        if la is None or lb is None:
+            return None
+        out = dict(la[0])
+        for k, v in lb[0].items():
+            out[k] = out.get(k, 0) - v
+        return ({k: v for k, v in out.items() if v != 0}, la[1] - lb[1] + c)
+    return ({sy: 1}, c)
+
 
 
 import re as _re_mod
